@@ -43,6 +43,8 @@ MARKERS = ['QXZV', 'Zyxwvut']
 TAIL_MARKERS = ['Garland', 'Woodland', 'Franklin', 'Thereof', 'Bathe']   # 'Woodland': a word that starts with a direction letter
 # a three-letter word: with its two blanks the raw block reaches MIN_REPORTABLE_UNUSED_LEN, so it is reportable as well
 SHORT_MARKERS = ['QXZ']
+# further shapes, on the intact variant only: starting with a direction letter, lower case, followed by a period, in brackets
+SHAPE_MARKERS = ['Easton', 'Norton', 'Sutton', 'qxzvq', 'Qxzvk.', '(Qxzvk)']
 _TRAPS = None
 
 
@@ -69,7 +71,7 @@ EXTRA_SEEDS = [
 _p = None
 # a marker that is followed, on the same line and within the reach of the meridian pattern ('.{0,25}' plus filler), by a
 # P.M. designation may be discarded together with it (exempt by the statement); the predicate is deliberately a superset
-PM_WINDOW = re.compile(r'(QXZV?|Zyxwvut|Garland|Woodland|Franklin|Thereof|Bathe|Qx[a-z]+xq)[^\n]{0,45}?(?<![A-Za-z])(P\.\s?M\.|Principal\s+Meridian)',
+PM_WINDOW = re.compile(r'(QXZV?|Easton|Norton|Sutton|qxzvq|Qxzvk|Zyxwvut|Garland|Woodland|Franklin|Thereof|Bathe|Qx[a-z]+xq)[^\n]{0,45}?(?<![A-Za-z])(P\.\s?M\.|Principal\s+Meridian)',
                        re.IGNORECASE)
 CONNECTORS = {'the', 'of', 'in', 'and', 'all'}
 
@@ -237,6 +239,9 @@ def run_unit(unit, tier):
                     if 'sec_within' not in (mode or ''):
                         for marker in SHORT_MARKERS:
                             judge(acc, unit['seed'], vname, toks, pos, marker, mode, seen)
+                if vname == 'intact':
+                    for marker in SHAPE_MARKERS:
+                        judge(acc, unit['seed'], vname, toks, pos, marker, mode, seen)
                 if vname == 'intact' and mode in (None, 'segment', 'sec_within'):
                     for marker in trap_markers():
                         judge(acc, unit['seed'], vname, toks, pos, marker, mode, seen)
